@@ -4,6 +4,7 @@ package aggregator
 
 import (
 	"context"
+	"fmt"
 	"net"
 	"sync"
 	"time"
@@ -14,6 +15,7 @@ import (
 	"github.com/VKCOM/statshouse/internal/agent"
 	"github.com/VKCOM/statshouse/internal/compress"
 	"github.com/VKCOM/statshouse/internal/data_model"
+	"github.com/VKCOM/statshouse/internal/data_model/gen2/tlmetadata"
 	"github.com/VKCOM/statshouse/internal/data_model/gen2/tlstatshouse"
 	"github.com/VKCOM/statshouse/internal/format"
 	"github.com/VKCOM/statshouse/internal/metajournal"
@@ -21,9 +23,21 @@ import (
 
 // C03 accessors (add-only; nothing in the package calls them).
 
+// metrics 101..107 carry every non-empty combination of skip_max_host (1), skip_min_host (2), skip_sum_square (4)
+var verifInsStorage = func() *metajournal.MetricsStorage {
+	ms := metajournal.MakeMetricsStorage(nil)
+	var evs []tlmetadata.Event
+	for i := 1; i < 8; i++ {
+		data := fmt.Sprintf(`{"skip_max_host":%v,"skip_min_host":%v,"skip_sum_square":%v}`, i&1 != 0, i&2 != 0, i&4 != 0)
+		evs = append(evs, tlmetadata.Event{Id: int64(100 + i), Name: fmt.Sprintf("verif_skip_%d", i), EventType: format.MetricEvent, Version: int64(i), Data: data})
+	}
+	ms.ApplyEvent(evs)
+	return ms
+}()
+
 func verifInsCtx() appendContext {
 	return appendContext{
-		metricCache:       makeMetricCache(metajournal.MakeMetricsStorage(nil)),
+		metricCache:       makeMetricCache(verifInsStorage),
 		unknownTags:       map[string]createMappingExtra{},
 		bucketUnknownTags: map[string]createMappingExtra{},
 	}
